@@ -63,8 +63,9 @@ class Contract:
                  raises=None, modifies=(), effects=(), loops=None, locals=None, inline=False, funcs=None,
                  ghost=None, mode="prove", unroll=None, comps=None, name=None, setup=(), max_paths=None,
                  frame=None, lock=None, replay=None, timeout_ms=None, axioms=(), post_setup=(), pure_result=None, asserts=None, nonlinear=False,
-                 strict_comps=False):
+                 strict_comps=False, feas_timeout_ms=None):
         self.key = key
+        self.feas_timeout_ms = feas_timeout_ms   # budget of one branch-feasibility pre-check (default 400 ms; unknown = feasible)
         self.strict_comps = strict_comps   # execute comprehension bodies once in exec mode: their exceptions count
         self.prop = prop if isinstance(prop, (list, tuple)) else [prop]
         self.short = name or key.split(":", 1)[1]
@@ -730,6 +731,9 @@ class Verifier:
         self.queries = 0
         saved_to = self.timeout_ms
         saved_nl = self.nonlinear
+        saved_feas = self.feas_timeout_ms
+        if c.feas_timeout_ms:
+            self.feas_timeout_ms = c.feas_timeout_ms
         self.nonlinear = self.nonlinear or c.nonlinear
         if c.timeout_ms:
             self.timeout_ms = c.timeout_ms
@@ -753,6 +757,7 @@ class Verifier:
         finally:
             self.timeout_ms = saved_to
             self.nonlinear = saved_nl
+            self.feas_timeout_ms = saved_feas
         if self.exits == 0 and not self.errors:
             self.errors.append("vacuous: no path reaches a function exit (contradictory requires?)")
         return {
